@@ -10,6 +10,9 @@ func init() {
 			base := c10Cases(tier)
 			var cases []Case
 			for _, b := range base {
+				if strings.HasPrefix(b.Tag, "generated-source-shapes") {
+					continue // store independence of generated shapes is C10's subject
+				}
 				// b.Args = script, spec, meta, flags
 				for _, mode := range []string{"purity", "determinism", "flags", "reentrancy"} {
 
@@ -18,7 +21,7 @@ func init() {
 				}
 				// metadata read from the store: the answers a store hands out are left alone, and two
 				// calls over one bundled static store write to none of its maps
-				if strings.Contains(b.Args[0], "meta(") && b.Args[2] != "" {
+				if (strings.Contains(b.Args[0], "meta(") && b.Args[2] != "") || strings.Contains(b.Args[0], "balance(") || strings.Contains(b.Args[0], "overdraft(") {
 					for _, mode := range []string{"answers", "shared"} {
 						cases = append(cases, Case{ID: "C11 " + mode + " " + b.ID[4:], Pkg: "", Fn: "ZZC11", Args: []string{mode, b.Args[0], b.Args[1], b.Args[2], b.Args[3]}, Tag: mode})
 					}
